@@ -45,6 +45,9 @@ def run(ctx):
         rc, o, e = run_lines(exe, ["imptable %d" % NIMP])
         if rc != 0 or not o:
             raise BuildError("imptable failed on %s: %s" % (name, e[-500:]))
+        if o[0].strip() == "UNAVAILABLE":
+            tables[name] = None
+            continue
         vals = [float.fromhex(x) for x in o[0].split()]
         tables[name] = o[0]
         bad = [(x, v) for x, v in enumerate(vals) if not (v == v and 1.0 / 128 <= v <= 1.0)]
@@ -59,11 +62,19 @@ def run(ctx):
     states = gen_states(rng, 1500 if q else 30000)
     cases = ["time %d %d %d %d %d" % (T, inc, mtg, ply, i % 2) for i, (T, inc, mtg, ply) in enumerate(states)]
     rc1, a1, e1 = run_lines(impl_ieee, cases, shards=NPROC)
-    rc2, a2, e2 = run_lines(model, ["impset " + tables["ieee"]] + cases, shards=1, timeout=1800)
-    if rc1 != 0 or rc2 != 0:
-        raise BuildError("time drivers failed rc=%d/%d %s %s" % (rc1, rc2, e1[-300:], e2[-300:]))
-    a2 = a2[1:]
-    mism = [(c, a, b) for c, a, b in zip(cases, a1, a2) if a != b]
+    if tables["ieee"] is None:
+        # engine::importance(double) is no longer an external function of time_manager.cpp: the model cannot be fed the
+        # build's own table, so the exact correspondence cannot run; the properties are still judged directly below
+        rc2, a2 = 0, []
+        if rc1 != 0:
+            raise BuildError("time driver failed rc=%d %s" % (rc1, e1[-300:]))
+        mism = [("engine::importance(double) is not linkable any more", "-", "-")]
+    else:
+        rc2, a2, e2 = run_lines(model, ["impset " + tables["ieee"]] + cases, shards=1, timeout=1800)
+        if rc1 != 0 or rc2 != 0:
+            raise BuildError("time drivers failed rc=%d/%d %s %s" % (rc1, rc2, e1[-300:], e2[-300:]))
+        a2 = a2[1:]
+        mism = [(c, a, b) for c, a, b in zip(cases, a1, a2) if a != b]
     ctx.cov["evaluations"] += len(cases)
     ctx.cov["distinct_nontrivial"] += len(set(c for c in cases if not c.startswith("time 0 ")))
     # (2) the three properties themselves on BOTH builds (the repository's flags are -Ofast: fast-math)
